@@ -150,6 +150,45 @@ def run(tier):
             sc = delta.Scenario("c%d" % len(scs), wd, Bcraft, T, sources=[S], rounds=0, final=False,
                                 name="crafted target (32-byte checksums extending a source's 16-byte ones, comp %d), target %s" % (comp, tn))
             sc.write_files(); scs.append(sc)
+    # source and target both carry uncompressed-source checksums and use DIFFERENT compression types; they share content, and
+    # for some chunks even the stored size coincides (an incompressible body plus a run the compressor shrinks by exactly its
+    # own framing).  Equal uncompressed checksum, data size and stored size do not make the stored bytes interchangeable: the
+    # copy pairs by the checksum of the STORED bytes only
+    def equal_stored_size_chunk():
+        for k in range(8, 400):
+            c = corpus.rand(rnd, 200) + bytes(k)
+            if len(ref.zstd_compress(c, 3, None)) == len(c):
+                return c
+        return None
+    eq = [equal_stored_size_chunk() for _ in range(2)]
+    if all(eq):
+        chx = [b""] + [corpus.text(rnd, 120), eq[0], corpus.text(rnd, 60), eq[1]]
+        for (tc, scomp) in ((0, 2), (2, 0)):
+            Bx = ref.build_file(chx, comp_type=tc, hash_type=1, chunk_hash_type=1, flags=4, level=3)[0]
+            Sx = ref.build_file([b"", chx[2], corpus.text(rnd, 33), chx[4], chx[1]], comp_type=scomp, hash_type=1, chunk_hash_type=1, flags=4, level=3)[0]
+            hBx = ref.parse_header(Bx)
+            for tn, T in (("empty", b""), ("zeros", bytes(len(Bx))), ("complete", Bx)):
+                sc = delta.Scenario("c%d" % len(scs), wd, Bx, T, sources=[Sx], rounds=0, final=False,
+                                    name="uncompressed-source checksums on both sides, target comp %d, source comp %d with equal stored sizes, target %s" % (tc, scomp, tn))
+                sc.write_files(); scs.append(sc)
+    else:
+        ck.notes.append("no chunk with equal stored sizes under both compression types found; cross-type family skipped")
+    # an unusual but legal layout: target and/or source with a padded header (stored header length larger than the sections)
+    for comp in (0, 2):
+        chp = [b""] + [corpus.text(rnd, n) for n in (90, 40, 150, 70)]
+        for (tpad, spad) in ((24, 0), (0, 37), (24, 37), (1, 1)):
+            Bp = ref.build_file(chp, comp_type=comp, hash_type=1, chunk_hash_type=3, level=3, pad=tpad)[0]
+            Sp = ref.build_file([b"", chp[3], corpus.text(rnd, 20), chp[1]], comp_type=comp, hash_type=1, chunk_hash_type=3, level=3, pad=spad)[0]
+            hp = ref.parse_header(Bp)
+            Tp = bytearray(Bp)
+            for (a, z) in delta.extents(hp)[1::2]:
+                Tp[a:z] = bytes(z - a)
+            h2 = ref.parse_header(Sp); Sbad = bytearray(Sp); a2 = h2.hdr_total + h2.entries[1]["start"]; Sbad[a2 + 2] ^= 0x10
+            for tn, T in (("empty", b""), ("every-other-chunk-present", bytes(Tp))):
+                for sn, S_ in (("good", Sp), ("first chunk damaged", bytes(Sbad))):
+                    sc = delta.Scenario("c%d" % len(scs), wd, Bp, T, sources=[S_], rounds=0, final=False,
+                                        name="padded headers (target +%d, source +%d bytes), comp %d, target %s, source %s" % (tpad, spad, comp, tn, sn))
+                    sc.write_files(); scs.append(sc)
     nproc = 12
     parts = ["".join(s.script() for s in scs[i::nproc]) for i in range(nproc)]
     evs = [e for part in common.run_driver_parallel(parts, "plain", timeout=2400) for e in part]
